@@ -1205,9 +1205,9 @@ def run_case(case):
 # one big non-ASCII document through the file / compressed line channels
 # --------------------------------------------------------------------------
 # The small graphs never leave the first buffer of a reader.  This document is a few hundred KB long, its IRIs and
-# literals are dense in 2-, 3- and 4-byte UTF-8 characters, and (N-Triples rendering) a multi-byte character of the
-# subject IRI of a typing statement straddles EVERY multiple of 64 KiB: a reader that decodes its input block by block
-# sees both halves.  Oracle only for the Shaper runs (evidence of every channel == evidence of the raw string; the
+# literals are dense in 2-, 3- and 4-byte UTF-8 characters, and -- in the rendering of the channel's own format:
+# one graph per format family, differing in the filler literals only -- a multi-byte character of the subject IRI of a
+# typing statement straddles EVERY multiple of 64 KiB: a reader that decodes its input block by block sees both halves.  Oracle only for the Shaper runs (evidence of every channel == evidence of the raw string; the
 # pipeline model is not run on 2 500 triples, and the extracted line-reader model needs minutes on 300 KB: neither
 # takes part -- this is an implementation-against-implementation comparison, raw string vs file / compressed file).
 
@@ -1221,14 +1221,27 @@ BIG_CHANNELS = [
 ]
 
 
-def gen_big_graph(r, n_bytes=300000):
+def _big_lines(fmt):
+    """(bytes of the document's header, function: triples -> bytes of their lines) in the rendering of `fmt`"""
+    if fmt == "nt":
+        return 0, lambda ts: pipe.nt_doc(esc_ts(ts)).encode("utf-8")
+    if fmt == "tsv_spo":
+        return 0, lambda ts: tsv_doc(ts).encode("utf-8")
+    head = len(ttl_doc([]).encode("utf-8"))
+    return head, lambda ts: ttl_doc(ts).encode("utf-8")[head:]
+
+
+def gen_big_graph(r, n_bytes=300000, fmt="nt"):
     """instances of three classes, names made of non-ASCII characters; filler statements (ASCII literal of the needed
-    length) put one byte of the first character of an instance's IRI before every multiple of BLOCK and the rest after"""
+    length) put, in the rendering of `fmt`, the first byte of the first non-ASCII character of an instance's typing
+    statement before every multiple of BLOCK and the rest of the character after it"""
+    head, lines = _big_lines(fmt)
+
     def word(lo, hi):
         return "".join(r.choice(NON_ASCII) for _ in range(r.randint(lo, hi)))
     classes = [("I", BIG_EX + "C" + word(3, 6)) for _ in range(3)]
     props = [BIG_EX + "p" + word(3, 8) for _ in range(4)]
-    ts, size, k, inst, seen = [], 0, 1, [], set()
+    ts, size, k, inst, seen = [], head, 1, [], set()
 
     def add(t):
         nonlocal size
@@ -1236,17 +1249,19 @@ def gen_big_graph(r, n_bytes=300000):
             return
         seen.add(t)
         ts.append(t)
-        size += len(pipe.nt_doc([t]).encode("utf-8"))
+        size += len(lines([t]))
     i = 0
-    filler_base = len(pipe.nt_doc([(("I", BIG_EX + "filler"), BIG_EX + "pad", ("L", "", XSD + "string"))]).encode("utf-8"))
+    filler_base = len(lines([(("I", BIG_EX + "filler"), BIG_EX + "pad", ("L", "", XSD + "string"))]))
     while size < n_bytes:
-        if k * BLOCK - size < 2500:
-            n = k * BLOCK - (len("<" + BIG_EX) + 1) - size - filler_base
-            add((("I", BIG_EX + "filler"), BIG_EX + "pad", ("L", ("%d" % k + "x" * n)[:n], XSD + "string")))
-            k += 1
         s = ("I", BIG_EX + word(3, 9) + "%d" % i)
         i += 1
-        add((s, TAU, r.choice(classes)))
+        typing = (s, TAU, r.choice(classes))
+        if k * BLOCK - size < 2500:
+            first = next(j for j, b in enumerate(lines([typing])) if b >= 0x80)
+            n = k * BLOCK - (first + 1) - size - filler_base
+            add((("I", BIG_EX + "filler"), BIG_EX + "pad", ("L", ("%d" % k + "x" * n)[:n], XSD + "string")))
+            k += 1
+        add(typing)
         for p in props:
             for _ in range(r.choice([0, 1, 1, 2])):
                 c = r.random()
@@ -1282,19 +1297,22 @@ def run_big_case(case):
            "monitored": 0, "outcomes": {}, "vm": [], "nontrivial": False, "comments": 0, "big": {}}
     old_timeout, TIMEOUT = TIMEOUT, 120.0
     try:
-        ts = gen_big_graph(r, case.get("bytes", 300000))
+        graphs = {}
+        for fmt_ in ("nt", "tsv_spo", "turtle_iter"):
+            ts_ = gen_big_graph(random.Random(case["seed"]), case.get("bytes", 300000), fmt_)
+            ref_, _ = real_shaper({"raw_graph": nt_doc(ts_)}, cfg)
+            out["runs"] += 1
+            graphs[fmt_] = (ts_, ref_, evidence(ref_, cfg))
+        ts = graphs["nt"][0]
         raw = nt_doc(ts)
         data = raw.encode("utf-8")
         out["doc"] = raw[:400]
         out["big"] = {"triples": len(ts), "bytes": len(data), "block_boundaries": (len(data) - 1) // BLOCK,
-                      "boundaries_inside_a_character": {"nt": straddled_boundaries(data)}}
-        ref, _ = real_shaper({"raw_graph": raw}, cfg)
-        out["runs"] += 1
-        e_ref = evidence(ref, cfg)
+                      "boundaries_inside_a_character": {}}
         for ch in BIG_CHANNELS:
-            info = build_channel(ch, ts, r, d)
-            if ch[3] == "file" and ch[1] != "nt":
-                out["big"]["boundaries_inside_a_character"][ch[0]] = straddled_boundaries(info["pieces"][0][1])
+            ts_, ref, e_ref = graphs[ch[1]]
+            info = build_channel(ch, ts_, r, d)
+            out["big"]["boundaries_inside_a_character"][ch[0]] = straddled_boundaries(info["pieces"][0][1])
             res, _ = real_shaper(info["kw"], cfg)
             out["runs"] += 1
             oc = res[0] if res[0] == "ok" else res[1]
@@ -1573,8 +1591,9 @@ def run(tier, seed, replay=None):
 
     def case_payload(case, extra):
         if case.get("big"):
-            d = {"case": dict(case), "document": "regenerated from the seed: c08.nt_doc(c08.gen_big_graph("
-                 "random.Random(seed), bytes)); %d bytes of N-Triples" % len(nt_doc(gen_big_graph(
+            d = {"case": dict(case), "document": "regenerated from the seed: c08.doc_for(fmt, c08.gen_big_graph("
+                 "random.Random(seed), bytes, fmt)) for fmt in nt / tsv_spo / turtle_iter (the channel's format); "
+                 "%d bytes of N-Triples" % len(nt_doc(gen_big_graph(
                      random.Random(case["seed"]), case.get("bytes", 300000))).encode("utf-8"))}
             d.update(extra)
             return d
